@@ -9,10 +9,14 @@ open B C02
 /-- A declared constraint that ASCII lower-casing of the pattern text replaces by a different one:
     a registered custom constraint whose name has an upper-case letter (the lower-cased name no
     longer selects it), or a data item with an upper-case letter (regex, datetime layout, custom
-    arguments). The built-in `minLen`/`maxLen`/`betweenLen` are not affected (fiber accepts their
-    lower-case spelling and their data are numbers). -/
+    arguments). The built-in `minLen`/`maxLen`/`betweenLen` are not affected by themselves (fiber
+    accepts their lower-case spelling and their data are numbers) — unless a custom constraint is
+    registered under the lower-cased spelling (`minlen`): then the folded name selects the custom
+    constraint instead of the declared built-in one (GET /:x<minLen(10)> with a custom `minlen`
+    serves /ac). -/
 def foldSensitive (custom : List Bytes) (c : Constraint) : Bool :=
-  (toLower c.name != c.name && custom.contains c.name) || c.data.any (fun d => toLower d != d)
+  (toLower c.name != c.name && (custom.contains c.name || custom.contains (toLower c.name)))
+    || c.data.any (fun d => toLower d != d)
 
 /-- K1: without CaseSensitive the router parses the *lower-cased* pattern, so a fold-sensitive
     declared constraint is not the one enforced. Region: configuration is case-insensitive and some
